@@ -101,16 +101,18 @@ def r031(ctx, rid):
             fnp = CC + 'ContentCollector::' + step
             rows = P.table(ctx, fnp, ['self', argname])
             site = ctx.site(fnp)
-            r.check('%s:rowcount' % step, len(rows) == 7, site, built=len(rows), expected='3 kinds x (Done, NeedMore) + idle')
-            idle = [x for x in rows if x.cond_strs() and x.cond_strs()[0].endswith('~ None')]
-            r.check('%s:idle' % step, len(idle) == 1 and idle[0].value_str() == FU, site, built=[x.row() for x in idle],
-                    expected='%s without content in progress -> FrameUnexpected' % argname)
+            # the state is taken out first; no content in progress is `?`-propagated FrameUnexpected (the failing arm of the match
+            # on `self.kind.take()` is its `?`, whichever way it is written), then the kind decides
+            TAKEN = 'std::option::Option::ok_or(std::option::Option::take(self.kind), errors::Error::FrameUnexpected)?'
+            r.check('%s:rowcount' % step, len(rows) == 6, site, built=len(rows), expected='3 kinds x (Done, NeedMore)')
+            r.check('%s:idle' % step, rows and all(x.conds and x.conds[0][0] == TAKEN for x in rows), site, built=[x.cond_strs()[:1] for x in rows][:2],
+                    expected='%s without content in progress -> FrameUnexpected (self.kind.take().ok_or(FrameUnexpected)? before anything else)' % argname)
             for kind, _ in KINDS:
-                st = 'std::option::Option::take(self.kind).Some.0.%s.0' % kind
+                st = '%s.%s.0' % (TAKEN, kind)
                 call = '%sState::%s(%s, self.channel_id, %s)' % (CC, step, st, argname)
-                mine = [x for x in rows if len(x.conds) == 3 and x.conds[0][1] == 'Some(_)' and x.conds[1] == (x.conds[0][0] + '.Some.0', '%sKind::%s(_)' % (CC, kind))]
-                done = [x for x in mine if x.conds[2][1].startswith(CC + 'Content::Done(')]
-                more = [x for x in mine if x.conds[2][1] == CC + 'Content::NeedMore(_)']
+                mine = [x for x in rows if len(x.conds) == 2 and x.conds[0] == (TAKEN, '%sKind::%s(_)' % (CC, kind))]
+                done = [x for x in mine if x.conds[1][1].startswith(CC + 'Content::Done(')]
+                more = [x for x in mine if x.conds[1][1] == CC + 'Content::NeedMore(_)']
                 if not r.check('%s:%s:rows' % (step, kind), len(done) == 1 and len(more) == 1, site, built=[x.row() for x in done + more]):
                     continue
                 d, m = done[0], more[0]
@@ -118,7 +120,7 @@ def r031(ctx, rid):
                 res = 'Ok(Some(%sCollectorResult::%s(%s)))' % (CC, kind, payload)  # Delivery((tag, delivery)) rebuilt from the pair reads as the pair
                 # the collector is idle afterwards: the state was take()n (that leaves None) and nothing is stored back, or None is stored explicitly
                 stores = [e for e in d.effects if e.startswith('self.kind = ')]
-                idle_after = d.conds[0][0] == 'std::option::Option::take(self.kind)' and stores in ([], ['self.kind = None'])
+                idle_after = d.conds[0][0] == TAKEN and stores in ([], ['self.kind = None'])
                 r.check('%s:%s:done' % (step, kind), idle_after and d.value_str() == res and call in d.effects, site, built=d.row(),
                         expected={'do': [call, 'self.kind = None (or left None by take())'], 'value': res})
                 keep = 'self.kind = Some(%sKind::%s(%s?.NeedMore.0))' % (CC, kind, call)
